@@ -134,11 +134,53 @@ func c01Typed[T interface {
 	cc.Distinct("typed/" + typ)
 }
 
+// c01TypedBig: 64-bit integers beyond 2^53 (not representable in float64):
+// window sums and averages in the element type are exact.
+func c01TypedBig(cc *run.Case) {
+	r := cc.R
+	for rep := 0; rep < 40; rep++ {
+		n, p := r.Range(0, 40), r.Range(1, 8)
+		xs := make([]int64, n)
+		for i := range xs {
+			xs[i] = (int64(1) << r.Pick(53, 54, 58)) + int64(r.Range(-99, 99))
+			if r.Intn(4) == 0 {
+				xs[i] = -xs[i]
+			}
+		}
+		runT := func(f func(<-chan int64) <-chan int64) []int64 {
+			return mon.RunSimple([][]int64{xs}, func(in []<-chan int64) []<-chan int64 { return []<-chan int64{f(in[0])} })[0]
+		}
+		sum := func(w []int64) int64 {
+			var s int64
+			for _, x := range w {
+				s += x
+			}
+			return s
+		}
+		for _, c := range []struct {
+			name      string
+			got, want []int64
+		}{
+			{"MovingSum", runT(trend.NewMovingSumWithPeriod[int64](p).Compute), typedWindow(xs, p, sum)},
+			{"Sma", runT(trend.NewSmaWithPeriod[int64](p).Compute), typedWindow(xs, p, func(w []int64) int64 { return sum(w) / int64(p) })},
+		} {
+			if !eqSlice(c.got, c.want) {
+				cc.Viol("", fmt.Sprintf("trend.%s[int64] period %d on %v: got %v, documented window formula gives %v", c.name, p, xs, c.got, c.want), nil)
+				return
+			}
+			cc.Count("positions_compared", int64(len(c.want)))
+		}
+		cc.Count("typed_runs:int64big", 2)
+	}
+	cc.Distinct("typed/int64big")
+}
+
 func c01TypedCases(ctx *run.Ctx) {
 	for b := 0; b < ctx.Pick(2, 20); b++ {
 		ctx.Case(fmt.Sprintf("typed/int/%d", b), func(cc *run.Case) { c01Typed[int](cc, "int", true) })
 		ctx.Case(fmt.Sprintf("typed/int64/%d", b), func(cc *run.Case) { c01Typed[int64](cc, "int64", true) })
 		ctx.Case(fmt.Sprintf("typed/int32/%d", b), func(cc *run.Case) { c01Typed[int32](cc, "int32", true) })
 		ctx.Case(fmt.Sprintf("typed/float32/%d", b), func(cc *run.Case) { c01Typed[float32](cc, "float32", false) })
+		ctx.Case(fmt.Sprintf("typed/int64big/%d", b), c01TypedBig)
 	}
 }
